@@ -52,9 +52,13 @@ func (idm *MemIdm) AddGroup(name string) (avfs.GroupReader, error) {
 // AddUser creates a new user with the specified userName and the specified primary group groupName.
 // If the user already exists, the returned error is of type avfs.AlreadyExistsUserError.
 func (idm *MemIdm) AddUser(name, groupName string) (avfs.UserReader, error) {
-	g, err := idm.LookupGroup(groupName)
-	if err != nil {
-		return nil, err
+	// the group can't be deleted while the user is added.
+	idm.grpMu.RLock()
+	defer idm.grpMu.RUnlock()
+
+	g, ok := idm.groupsByName[groupName]
+	if !ok {
+		return nil, avfs.UnknownGroupError(groupName)
 	}
 
 	idm.usrMu.Lock()
